@@ -57,6 +57,7 @@ ATOMS = [
     # atoms that split the document at the iframe boundary (evaluation-order effects of per-document memo tables)
     ':not(iframe *)', 'iframe *', 'p:lang(en)', ':lang(de)', '#i1 *', 'form *',
 ]
+JUNK = ['', 'div >', 'p +', 'span ~', 'div > p >', ' ']
 XS = [0, 1, 3]      # X in 'X:is(A)': p, *, .c1
 
 
@@ -105,6 +106,9 @@ def _worker(args):
                   'isb': run(':is(%s)' % B), 'nota': run(':not(%s)' % A), 'notab': run(':not(%s, %s)' % (A, B)),
                   'whereab': run(':where(%s, %s)' % (A, B)), 'matchesab': run(':matches(%s, %s)' % (A, B)),
                   'xisa': run('%s:is(%s)' % (X if X != '*' else '*', A)), 'abc': run('%s, %s, %s' % (A, B, C)),
+                  # forgiving lists: an empty slot or an alternative ending in a combinator is dropped, the others keep their meaning
+                  'fg1': run(':is(%s, %s)' % (JUNK[(i + j) % len(JUNK)], B)), 'fg2': run(':where(%s, %s)' % (B, ['', ' '][(i + j) % 2])),          # (a trailing-combinator alternative in LAST position is rejected by the parser)
+                  'fg3': run(':is(%s, %s, %s)' % (A, JUNK[(i + 2 * j) % len(JUNK)], B)),
                   'A': A, 'B': B, 'doc': '%s#%d' % (parser, d), 'ns': n}
             lines.append(json.dumps(ev))
     return lines
